@@ -193,6 +193,8 @@ def main(argv=None):
         with ctx.Pool(min(a.jobs, len(work)), maxtasksperchild=1) as pool:
             for r in pool.imap_unordered(_worker, work, chunksize=1):
                 results.append(r)
+                if os.environ.get('VERIF_PROGRESS'):
+                    print(f'  done {r["name"]} {r["wall_s"]:.0f}s ({len(results)}/{len(work)})', file=sys.stderr, flush=True)
     results.sort(key=lambda r: r['name'])
     wall = time.time() - t0
 
